@@ -324,6 +324,13 @@ Definition add_clients (s : store) (rnd : Z) (cids : list Z) : option (store * n
   | None => None
   end.
 
+(* a heap whose cells mention only existing locations: the hypothesis `closed` of C10_repeatable, as a
+   boolean that run_round ASSERTS on the store of every round (a case violating it is a disagreement) *)
+Definition cell_locs (c : cell) : list nat :=
+  match c with CArr _ _ => [] | CDict kvs => map snd kvs | CList l => l | CRec l => l end.
+Definition closedb (s : store) : bool :=
+  forallb (fun c => forallb (fun x => Nat.ltb x (length s)) (cell_locs c)) s.
+
 (* one call of apply(): the clients are allocated, then the algorithm's script runs with
    exactly two bindings: the state and the client tuple *)
 Definition apply_round (a : C10_alg) (W K : nat) (s : store) (st_loc : nat) (rnd : Z) (rd : C10_round) : option st :=
@@ -414,6 +421,7 @@ Definition run_round (a : C10_alg) (W K : nat) (s : store) (st_loc : nat) (rnd :
   : option (store * nat * C10_robs) :=
   match add_clients s rnd (rd_cids rd), apply_round a W K s st_loc rnd rd with
   | Some (s1, _), Some σ =>
+      if negb (closedb s1) then None else
       match next_state σ with
       | None => None
       | Some (s2, ns) =>
